@@ -195,7 +195,164 @@ Example gen_numpy_runs :
   py_N_matrix_decomposition_diagonal 1 1 (lift 0 [(1,0); (2,0); (3,0); (5,0)]) = FOutOfFuel.
 Proof. repeat split; vm_compute; reflexivity. Qed.
 
+(* ---------- the general variant: four-way butterfly ---------- *)
+Lemma vnimul_lift e x : vnimul (lift e x) = lift e (vimul x).
+Proof. unfold vnimul, vimul, lift. rewrite !map_map. reflexivity. Qed.
+Lemma vimul_length x : length (vimul x) = length x. Proof. apply map_length. Qed.
+
+Lemma slice_at {A} (l pre X post : list A) (a b : Z) : l = pre ++ X ++ post -> a = Z.of_nat (length pre) -> b = a + Z.of_nat (length X) -> slice_range l a b = X.
+Proof.
+  intros -> -> ->. unfold slice_range. rewrite <- Nat2Z.inj_add, !clamp_nat, !app_length.
+  rewrite (Nat.min_l (length pre)) by lia. rewrite (Nat.min_l (length pre + length X)) by lia. replace (length pre + length X - length pre)%nat with (length X) by lia.
+  rewrite skipn_app_exact by reflexivity. apply firstn_app_exact. reflexivity.
+Qed.
+Lemma assign_at {A} (l pre X post X' : list A) (a b : Z) : l = pre ++ X ++ post -> a = Z.of_nat (length pre) -> b = a + Z.of_nat (length X) ->
+  slice_assign l a b X' = pre ++ X' ++ post.
+Proof. intros -> -> ->. apply assign_mid. Qed.
+
+Definition blk4_body (o_ : outcome (list num * Z) (list num)) (it_ : Z) : outcome (list num * Z) (list num) :=
+  seqo o_ (fun '(v_b, v_h) => let v_i := it_ in uncont (
+    let '(u0_, u1_) := (slice_range v_b v_i (v_i + v_h), slice_range v_b (v_i + v_h) (v_i + 2 * v_h)) in let v_x := u0_ in let v_y := u1_ in
+    if Nat.eqb (length v_x) (length v_y) then if Nat.eqb (length v_x) (length v_y) then
+      let rhs0_ := vnhalf (vnadd v_x v_y) in let rhs1_ := vnhalf (vnsub v_x v_y) in
+      if Nat.eqb (length rhs0_) (length (slice_range v_b v_i (v_i + v_h))) then let v_b := slice_assign v_b v_i (v_i + v_h) rhs0_ in
+        if Nat.eqb (length rhs1_) (length (slice_range v_b (v_i + v_h) (v_i + 2 * v_h))) then let v_b := slice_assign v_b (v_i + v_h) (v_i + 2 * v_h) rhs1_ in
+          let '(u0_, u1_) := (slice_range v_b (v_i + 2 * v_h) (v_i + 3 * v_h), slice_range v_b (v_i + 3 * v_h) (v_i + 4 * v_h)) in let v_z := u0_ in let v_w := u1_ in
+          if Nat.eqb (length v_z) (length v_w) then if Nat.eqb (length v_z) (length v_w) then
+            let rhs0_ := vnhalf (vnadd v_z v_w) in let rhs1_ := vnhalf (vnimul (vnsub v_z v_w)) in
+            if Nat.eqb (length rhs0_) (length (slice_range v_b (v_i + 2 * v_h) (v_i + 3 * v_h))) then let v_b := slice_assign v_b (v_i + 2 * v_h) (v_i + 3 * v_h) rhs0_ in
+              if Nat.eqb (length rhs1_) (length (slice_range v_b (v_i + 3 * v_h) (v_i + 4 * v_h))) then let v_b := slice_assign v_b (v_i + 3 * v_h) (v_i + 4 * v_h) rhs1_ in Next (v_b, v_h)
+              else Raised (EUser "ValueError")
+            else Raised (EUser "ValueError") else Raised (EUser "ValueError") else Raised (EUser "ValueError")
+        else Raised (EUser "ValueError")
+      else Raised (EUser "ValueError") else Raised (EUser "ValueError") else Raised (EUser "ValueError"))).
+
+Ltac sl := first [reflexivity | rewrite <- ?app_assoc; reflexivity | rewrite ?app_length, ?lift_length, ?vadd_length, ?vsub_length, ?vimul_length; lia].
+
+Lemma blk4_step e hn pre x y z w rest' : length x = hn -> length y = hn -> length z = hn -> length w = hn ->
+  blk4_body (Next (lift (S e) pre ++ lift e (x ++ y ++ z ++ w ++ rest'), Z.of_nat hn)) (Z.of_nat (length pre)) =
+  Next (lift (S e) (pre ++ combS x y z w) ++ lift e rest', Z.of_nat hn).
+Proof.
+  intros Hx Hy Hz Hw. unfold blk4_body. cbn [seqo]. cbv zeta. rewrite !lift_app.
+  set (P := lift (S e) pre). set (X := lift e x). set (Y := lift e y). set (Zz := lift e z). set (W := lift e w). set (R := lift e rest').
+  assert (LP : length P = length pre) by apply lift_length.
+  assert (LX : length X = hn) by (unfold X; rewrite lift_length; exact Hx). assert (LY : length Y = hn) by (unfold Y; rewrite lift_length; exact Hy).
+  assert (LZ : length Zz = hn) by (unfold Zz; rewrite lift_length; exact Hz). assert (LW : length W = hn) by (unfold W; rewrite lift_length; exact Hw).
+  set (i := Z.of_nat (length pre)). set (h := Z.of_nat hn).
+  rewrite (slice_at _ P X (Y ++ Zz ++ W ++ R) i (i + h)) by (unfold i, h; sl).
+  rewrite (slice_at _ (P ++ X) Y (Zz ++ W ++ R) (i + h) (i + 2 * h)) by (unfold i, h; sl).
+  cbv beta iota. rewrite LX, LY, Nat.eqb_refl.
+  set (X1 := vnhalf (vnadd X Y)). set (Y1 := vnhalf (vnsub X Y)).
+  assert (EX1 : X1 = lift (S e) (vadd x y)) by (unfold X1, X, Y; rewrite vnadd_lift, vnhalf_lift; reflexivity).
+  assert (EY1 : Y1 = lift (S e) (vsub x y)) by (unfold Y1, X, Y; rewrite vnsub_lift, vnhalf_lift; reflexivity).
+  assert (LX1 : length X1 = hn) by (rewrite EX1, lift_length, vadd_length, Hx, Hy; apply Nat.min_id).
+  assert (LY1 : length Y1 = hn) by (rewrite EY1, lift_length, vsub_length, Hx, Hy; apply Nat.min_id).
+  rewrite LX1, Nat.eqb_refl.
+  rewrite (assign_at _ P X (Y ++ Zz ++ W ++ R) X1 i (i + h)) by (unfold i, h; sl).
+  rewrite (slice_at _ (P ++ X1) Y (Zz ++ W ++ R) (i + h) (i + 2 * h)) by (unfold i, h; sl).
+  rewrite LY1, LY, Nat.eqb_refl.
+  rewrite (assign_at _ (P ++ X1) Y (Zz ++ W ++ R) Y1 (i + h) (i + 2 * h)) by (unfold i, h; sl).
+  rewrite (slice_at _ (P ++ X1 ++ Y1) Zz (W ++ R) (i + 2 * h) (i + 3 * h)) by (unfold i, h; sl).
+  rewrite (slice_at _ (P ++ X1 ++ Y1 ++ Zz) W R (i + 3 * h) (i + 4 * h)) by (unfold i, h; sl).
+  cbv beta iota. rewrite LZ, LW, Nat.eqb_refl.
+  set (Z1 := vnhalf (vnadd Zz W)). set (W1 := vnhalf (vnimul (vnsub Zz W))).
+  assert (EZ1 : Z1 = lift (S e) (vadd z w)) by (unfold Z1, Zz, W; rewrite vnadd_lift, vnhalf_lift; reflexivity).
+  assert (EW1 : W1 = lift (S e) (vimul (vsub z w))) by (unfold W1, Zz, W; rewrite vnsub_lift, vnimul_lift, vnhalf_lift; reflexivity).
+  assert (LZ1 : length Z1 = hn) by (rewrite EZ1, lift_length, vadd_length, Hz, Hw; apply Nat.min_id).
+  assert (LW1 : length W1 = hn) by (rewrite EW1, lift_length, vimul_length, vsub_length, Hz, Hw; apply Nat.min_id).
+  rewrite LZ1, Nat.eqb_refl.
+  rewrite (assign_at _ (P ++ X1 ++ Y1) Zz (W ++ R) Z1 (i + 2 * h) (i + 3 * h)) by (unfold i, h; sl).
+  rewrite (slice_at _ (P ++ X1 ++ Y1 ++ Z1) W R (i + 3 * h) (i + 4 * h)) by (unfold i, h; sl).
+  rewrite LW1, LW, Nat.eqb_refl.
+  rewrite (assign_at _ (P ++ X1 ++ Y1 ++ Z1) W R W1 (i + 3 * h) (i + 4 * h)) by (unfold i, h; sl).
+  cbn [uncont]. rewrite EX1, EY1, EZ1, EW1. unfold P, R, combS. rewrite !lift_app, <- !app_assoc. reflexivity.
+Qed.
+
+Lemma blk4_pass e hn : (0 < hn)%nat -> forall k pre rest, length rest = (k * (4 * hn))%nat ->
+  fold_left blk4_body (map (fun j => Z.of_nat (length pre + j * (4 * hn))) (seq 0 k)) (Next (lift (S e) pre ++ lift e rest, Z.of_nat hn)) =
+  Next (lift (S e) (pre ++ pass k hn rest), Z.of_nat hn).
+Proof.
+  intros Hh. induction k as [|k IH]; intros pre rest Hr.
+  - destruct rest; [|cbn in Hr; lia]. cbn. rewrite !app_nil_r. reflexivity.
+  - destruct (split_block hn Hh k rest Hr) as [x [y [z [w [rest' [-> [Hx [Hy [Hz [Hw Hr']]]]]]]]]].
+    cbn [seq map fold_left]. rewrite Nat.mul_0_l, Nat.add_0_r. rewrite (blk4_step e hn pre x y z w rest' Hx Hy Hz Hw).
+    rewrite (pass_block hn Hh k x y z w rest' Hx Hy Hz Hw).
+    rewrite <- seq_shift, map_map.
+    rewrite (map_ext _ (fun j => Z.of_nat (length (pre ++ combS x y z w) + j * (4 * hn)))).
+    + rewrite IH by assumption. rewrite <- !app_assoc. reflexivity.
+    + intros j. rewrite app_length, (combS_length hn) by assumption. f_equal. lia.
+Qed.
+
+Lemma range_blocks4 (k hn : nat) : (0 < hn)%nat ->
+  pyrange_step 0 (Z.of_nat (k * (4 * hn))) (4 * Z.of_nat hn) = map (fun j => Z.of_nat (length (@nil gi) + j * (4 * hn))) (seq 0 k).
+Proof.
+  intros Hh. unfold pyrange_step. replace ((Z.of_nat (k * (4 * hn)) - 0 + 4 * Z.of_nat hn - 1) / (4 * Z.of_nat hn)) with (Z.of_nat k).
+  - rewrite Nat2Z.id. apply map_ext. intros j. cbn [length]. lia.
+  - apply Z.div_unique with (r := 4 * Z.of_nat hn - 1); [lia|nia].
+Qed.
+
+Definition lvl4_body (s : list num * Z) : outcome (list num * Z) (list num) :=
+  let '(v_b, v_h) := s in
+  if 0 <? 4 * v_h then seqo (unloop (fold_left blk4_body (pyrange_step 0 (Z.of_nat (length v_b)) (4 * v_h)) (Next (v_b, v_h)))) (fun '(v_b, v_h) => let v_h := v_h * 4 in Next (v_b, v_h))
+  else Raised (EUser "ValueError").
+
+Lemma levels4 (N : nat) : forall r l c f, length c = Nat.pow 4 N -> (l + r = N)%nat -> (r < f)%nat ->
+  while_loop f lvl_cond lvl4_body (lift l c, Z.of_nat (Nat.pow 4 l)) = Next (lift N (passes r (Nat.pow 4 l) c), Z.of_nat (Nat.pow 4 N)).
+Proof.
+  induction r as [|r IH]; intros l c f Hc Hl Hf; (destruct f as [|f]; [lia|]); cbn [while_loop]; unfold lvl_cond at 1; cbv beta iota; rewrite lift_length, Hc.
+  - assert (l = N) by lia. subst l. assert (E : (Z.of_nat (Nat.pow 4 N) <? Z.of_nat (Nat.pow 4 N)) = false) by lia. rewrite E. reflexivity.
+  - assert (Hlt : (Nat.pow 4 l < Nat.pow 4 N)%nat) by (apply Nat.pow_lt_mono_r; lia).
+    assert (E : (Z.of_nat (Nat.pow 4 l) <? Z.of_nat (Nat.pow 4 N)) = true) by lia. rewrite E.
+    set (hn := Nat.pow 4 l). assert (Hh : (0 < hn)%nat) by apply pow4_pos.
+    set (k := Nat.pow 4 (N - l - 1)).
+    assert (Hk : Nat.pow 4 N = (k * (4 * hn))%nat).
+    { unfold k, hn. replace N with ((N - l - 1) + S l)%nat at 1 by lia. rewrite Nat.pow_add_r. cbn [Nat.pow]. lia. }
+    unfold lvl4_body at 1. cbv beta iota. assert (G : (0 <? 4 * Z.of_nat hn) = true) by lia. rewrite G, lift_length, Hc, Hk.
+    rewrite (range_blocks4 k hn Hh). change (lift l c) with (lift (S l) [] ++ lift l c).
+    rewrite (blk4_pass l hn Hh k [] c (eq_trans Hc Hk)). cbn [unloop seqo uncont app]. cbv beta iota zeta.
+    replace (Z.of_nat hn * 4) with (Z.of_nat (Nat.pow 4 (S l))) by (unfold hn; cbn [Nat.pow]; lia).
+    assert (Hc' : length (pass k hn c) = Nat.pow 4 N) by (rewrite (pass_length hn Hh k c (eq_trans Hc Hk)); exact Hc).
+    pose proof (IH (S l) (pass k hn c) f Hc' ltac:(lia) ltac:(lia)) as E2. rewrite E2.
+    rewrite <- Hk. cbn [passes]. rewrite (pass_len_fuel hn Hh k c (eq_trans Hc Hk)).
+    replace (4 * hn)%nat with (Nat.pow 4 (S l)) by (unfold hn; cbn [Nat.pow]; lia). reflexivity.
+Qed.
+
+(* matrix_decomposition on a 2^N x 2^N matrix whose Pauli-order vectorisation is v *)
+Theorem gen_n_full (fuel N : nat) (v : gvec) : length v = Nat.pow 4 N -> (1 <= N)%nat -> (N < fuel)%nat ->
+  py_N_matrix_decomposition fuel 2 (Z.of_nat (Nat.pow 2 N)) (Z.of_nat (Nat.pow 2 N)) (lift 0 v) = FRet (lift N (bfly_iter N v)).
+Proof.
+  intros Hv HN Hf. unfold py_N_matrix_decomposition. cbv zeta. cbn [Z.eqb negb seqo Pos.eqb]. rewrite Z.eqb_refl. cbn [negb seqo].
+  assert (P1 : (Z.of_nat (Nat.pow 2 N) =? 1) = false).
+  { destruct N as [|N']; [lia|]. cbn [Nat.pow]. pose proof (pow2_pos N'). lia. }
+  rewrite P1, popcount_pow2. cbn [Z.eqb negb seqo Pos.eqb]. cbv beta iota.
+  change (while_loop fuel _ _ (lift 0 v, 1)) with (while_loop fuel lvl_cond lvl4_body (lift 0 v, Z.of_nat (Nat.pow 4 0))).
+  rewrite (levels4 N N 0%nat v fuel Hv ltac:(lia) Hf). reflexivity.
+Qed.
+
+Theorem gen_n_full_rejects fuel ndim s0 s1 (v : list num) :
+  (ndim <> 2 -> py_N_matrix_decomposition fuel ndim s0 s1 v = FRaised (EUser "ValueError")) /\
+  (s0 <> s1 -> py_N_matrix_decomposition fuel 2 s0 s1 v = FRaised (EUser "ValueError")) /\
+  (py_N_matrix_decomposition fuel 2 1 1 v = FRaised (EUser "ValueError")) /\
+  (popcountZ s0 <> 1 -> py_N_matrix_decomposition fuel 2 s0 s0 v = FRaised (EUser "ValueError")).
+Proof.
+  unfold py_N_matrix_decomposition. cbv zeta. repeat split.
+  - intros H. assert (E : (ndim =? 2) = false) by lia. rewrite E. reflexivity.
+  - intros H. cbn [Z.eqb negb seqo Pos.eqb]. assert (E : (s0 =? s1) = false) by lia. rewrite E. reflexivity.
+  - intros H. cbn [Z.eqb negb seqo Pos.eqb]. rewrite Z.eqb_refl. cbn [negb seqo]. destruct (s0 =? 1); [reflexivity|]. cbn [seqo]. cbv beta iota.
+    assert (E : (popcountZ s0 =? 1) = false) by lia. rewrite E. reflexivity.
+Qed.
+
+(* C13 read on the source: given the Pauli-order vectorisation vec N A (the contract of _mat_to_vec), the weights are decompose N A / 2^N *)
+Theorem gen_n_full_decompose (fuel N : nat) (A : mat) : (1 <= N)%nat -> (N < fuel)%nat ->
+  py_N_matrix_decomposition fuel 2 (Z.of_nat (Nat.pow 2 N)) (Z.of_nat (Nat.pow 2 N)) (lift 0 (vec N A)) = FRet (lift N (decompose N A)).
+Proof.
+  intros HN Hf. rewrite (gen_n_full fuel N (vec N A) (vec_length N A) HN Hf). f_equal. f_equal. apply (decompose_iter_eq N A).
+Qed.
+
 Print Assumptions gen_n_diag.
 Print Assumptions gen_n_diag_rejects.
 Print Assumptions gen_n_diag_decompose.
 Print Assumptions gen_numpy_runs.
+Print Assumptions gen_n_full.
+Print Assumptions gen_n_full_rejects.
+Print Assumptions gen_n_full_decompose.
